@@ -128,11 +128,12 @@ def renderings(case):
             rename[c["name"]] = {1: "_%s", 2: "%s_", 3: "x9_%s_Y", 4: "__%s"}[style] % c["name"].lower()
     for k, c in enumerate(cmds):
         st_ = styles[k % len(styles)]
-        if c["cmd"] == "EEMSRead" and st_.get("omit_new_field"):
+        if c["cmd"] == "EEMSRead" and (st_.get("omit_new_field") or st_.get("same_name")):
             col = [a[1]["s"] for a in c["args"] if a[0] == "InFieldName"][0]
             if col not in rename.values() and col not in omitted_cols:
                 rename[c["name"]] = col
-                omitted.add(c["name"])
+                if st_.get("omit_new_field"):
+                    omitted.add(c["name"])  # otherwise NewFieldName is spelled out although it repeats the field's name
                 omitted_cols.add(col)
     def rn(v):
         if isinstance(v, dict) and "r" in v:
@@ -257,7 +258,7 @@ def model_cases(draw):
         "v2": st.sampled_from([True, True, True, not mixed or False]) if mixed else st.just(True),
         "omit_new_field": st.booleans(), "out_file": st.sampled_from([False, False, True]),
         "pos": st.one_of(st.none(), st.lists(st.integers(0, 6), min_size=2, max_size=2)),
-        "assigned": st.sampled_from([False, False, True]), "paren_break": st.sampled_from([0, 0, 0, 1, 2])}), min_size=3, max_size=10))
+        "assigned": st.sampled_from([False, False, True]), "paren_break": st.sampled_from([0, 0, 0, 1, 2]), "same_name": st.sampled_from([False, False, True])}), min_size=3, max_size=10))
     if draw(st.integers(0, 3)) == 0:
         for s_ in styles:  # a file in which no command is written bare
             s_["assigned"] = True
@@ -267,6 +268,7 @@ def model_cases(draw):
         case["numeric_columns"] = True
         for s_ in styles:
             s_["omit_new_field"] = False  # a number cannot name a result
+            s_["same_name"] = False
     return case
 
 
